@@ -399,6 +399,124 @@ def check_selection(cell):
     return []
 
 
+# ---- stage 7: the table selection and the expansion as the command line shows them ---------------------------------
+def cli_cells(tier):
+    cells = []
+    mvs = (13, 33, 42) if tier == 'quick' else (6, 13, 19, 25, 33, 40, 41, 42)
+    for mv in mvs:
+        for (centre, sub, lv) in ((None, None, None), (98, 0, 1), (98, 0, 101), (98, 1, 3), (7, 0, 2)):
+            cells.append((centre, sub, mv, lv))
+    cells.append((None, None, None, None))
+    return cells
+
+
+def _lookup_lines(shape, depth=0, out=None):
+    """the (depth, id) sequence of the lookup command's indented listing"""
+    out = [] if out is None else out
+    for x in shape:
+        out.append((depth, x[1]))
+        if x[0] == 'D':
+            if x[2] is not None:
+                out.append((depth + 1, x[2]))
+            _lookup_lines(x[3], depth + 1, out)
+        elif x[0] in ('S', 'R'):
+            _lookup_lines(x[2], depth + 1, out)
+    return out
+
+
+def check_cli_cell(cell):
+    """lookup and compile for one table selection given through the command-line options"""
+    from vlib import cli
+    centre, sub, mv, lv = cell
+    fails = []
+    detail = {'originating_centre': centre, 'originating_subcentre': sub, 'master_table_version': mv, 'local_table_version': lv}
+    opts = []
+    for flag, v in (('--originating-centre', centre), ('--originating-subcentre', sub), ('--master-table-version', mv),
+                    ('--local-table-version', lv)):
+        if v is not None:
+            opts += [flag, str(v)]
+    exp_sel = rtables.select(0, centre, sub, mv, lv)
+    rt = rtables.load(*exp_sel)
+    rt33 = rtables.load_for(0, 0, 0, 33, 0)
+    # elements and sequences that this selection defines otherwise than the default tables do (or that only it defines)
+    elems = [i for i in sorted(rt.B) if i // 1000 not in (0, 31) and (i not in rt33.B or
+             (rt.B[i].nbits, rt.B[i].scale, rt.B[i].ref) != (rt33.B[i].nbits, rt33.B[i].scale, rt33.B[i].ref))][:6]
+    elems += [1001, 12001]
+    seqs = []
+    cache = {}
+    for sid in sorted(rt.D):
+        if len(seqs) >= 6:
+            break
+        if sid not in rt33.D or rt.D[sid][1] != rt33.D[sid][1]:
+            try:
+                rtree.parse([sid], rt, strict=True, _seq_cache=cache)
+                seqs.append(sid)
+            except IllFormed:
+                pass
+    seqs += [s_ for s_ in (301011, 302036) if s_ in rt.D]
+    ids = elems + seqs + [102000 + 0, 31001, 1001, 1002]
+    nodes = rtree.parse(ids, rt, strict=True)
+    want = _lookup_lines(rtree.shape(nodes))
+    o, so, se = cli.run_main(['lookup', ','.join('%06d' % i for i in ids)] + opts)
+    if not o.ok:
+        fails.append(('lookup command raised %s@%s' % (o.exc_type, o.frame), dict(detail, error=o.msg)))
+    else:
+        got = []
+        attrs = {}
+        for line in so.splitlines():
+            body = line.lstrip(' .')
+            if len(body) < 6 or not body[:6].isdigit():
+                continue
+            depth = (len(line) - len(body)) // 4
+            got.append((depth, int(body[:6])))
+            if depth == 0 and body.count(', ') >= 4:
+                parts = body.rsplit(', ', 4)
+                attrs[int(body[:6])] = (parts[1], parts[2], parts[3], parts[4])
+        if got != want:
+            k = next((i for i, (a, b) in enumerate(zip(got, want)) if a != b), min(len(got), len(want)))
+            fails.append(('lookup command: the listing is not the expansion of the selected tables', dict(detail, index=k, got=got[k:k + 4],
+                                                                                                       expected=want[k:k + 4])))
+        for i in elems:
+            e = rt.B[i]
+            if attrs.get(i) != (e.unit, str(e.scale), str(e.ref), str(e.nbits)):
+                fails.append(('lookup command: Table B attributes of an element are not those of the selected tables',
+                              dict(detail, id=i, got=attrs.get(i), expected=(e.unit, e.scale, e.ref, e.nbits))))
+                break
+    nums = [i for i in elems if rt.B[i].kind == 'num' and not rt.B[i].sut_numeric_codeish][:5]
+    tids = nums + [101002] + nums[:1]
+    o, so, se = cli.run_main(['compile', ','.join('%06d' % i for i in tids)] + opts)
+    if not o.ok:
+        fails.append(('compile command raised %s@%s' % (o.exc_type, o.frame), dict(detail, error=o.msg)))
+    else:
+        try:
+            d = json.loads(so)
+        except ValueError:
+            d = None
+        if not isinstance(d, dict):
+            fails.append(('compile command: output is not a JSON object', dict(detail, got=so[:100])))
+        else:
+            key = d.get('table_group_key') or [None, None, None]
+            got_sel = (tuple(key[1]) if key[1] else None, tuple(key[2]) if key[2] else None)
+            if got_sel != exp_sel:
+                fails.append(('compile command: the compiled template names other tables than the selected ones',
+                              dict(detail, got=got_sel, expected=exp_sel)))
+            if d.get('template_ids') != tids:
+                fails.append(('compile command: template ids differ', dict(detail, got=d.get('template_ids'), expected=tids)))
+            calls = []
+
+            def walk(stmts):
+                for st in stmts:
+                    if st.get('type') == 'CoderMethodCall' and st.get('method_name') == 'process_numeric':
+                        calls.append(tuple(st['args'][:2]) + (st['args'][3],))
+                    walk(st.get('statements') or [])
+            walk(d.get('statements') or [])
+            want_calls = [(i, rt.B[i].nbits, rt.B[i].ref) for i in nums + nums[:1]]
+            if calls != want_calls:
+                fails.append(('compile command: widths / reference values in the compiled template are not those of the selected tables',
+                              dict(detail, got=calls[:4], expected=want_calls[:4])))
+    return fails
+
+
 # ---- stage 4: messages whose template holds a descriptor that is in no table -----------------------------
 class UnknownCase(object):
     def __init__(self, meta, ids, data_bits, shape, unknown, nbits_pad=256):
@@ -677,7 +795,14 @@ def run(tier, seed):
         for clause, detail in r['fails']:
             rep.add_failure('sequence templates: ' + clause, dict(detail, table_selection=r['sel']), {'kind': 'sequence_templates', 'sel': r['sel']},
                             stage='sequence templates')
-    rep.required_classes = ['after_in_stream_definitions', 'list_nesting_4', 'list_with_undefined_id', 'list_X_ge_40', 'unknown_in_221', 'unknown_fixed_rep',
+    # stage 7
+    ccells = cli_cells(tier)
+    res = runner.run_enumerated(ccells, check_cli_cell, min(workers, 4), chunk=2)
+    for cell, fails in zip(ccells, res):
+        rep.add_case('cli:%r' % (cell,), True, ['command_line_lookup_and_compile'])
+        for clause, detail in fails:
+            rep.add_failure('command line: ' + clause, detail, {'kind': 'cli', 'cell': list(cell)}, stage='command line')
+    rep.required_classes = ['after_in_stream_definitions', 'command_line_lookup_and_compile', 'list_nesting_4', 'list_with_undefined_id', 'list_X_ge_40', 'unknown_in_221', 'unknown_fixed_rep',
                             'unknown_delayed_rep', 'unknown_after_rep', 'unknown_nested_rep', 'unknown_sequence', 'unknown_replication_factor',
                             'selection_cell', 'table_d_entries']
     fuzz.run_structured(rep, 'checks.c14', gen_list, tier, funcname='fuzz_list', tag='lists')
@@ -689,8 +814,10 @@ def replay(path):
     with open(path) as f:
         d = json.load(f)
     c = d['case']
-    if c.get('kind') in ('tables', 'selection', 'sequence_templates'):
-        if c['kind'] == 'sequence_templates':
+    if c.get('kind') in ('tables', 'selection', 'sequence_templates', 'cli'):
+        if c['kind'] == 'cli':
+            fails = check_cli_cell(tuple(c['cell']))
+        elif c['kind'] == 'sequence_templates':
             fails = check_sequences_extra(tuple(c['sel']))['fails']
         elif c['kind'] == 'tables':
             fails = check_tables(tuple(c['sel']))['fails']
